@@ -280,6 +280,30 @@ func presentationReplay(e *env) error {
 				x.bad("default-not-interleave-of-no-totals-and-totals-only", site, fmt.Sprintf("template %s: default %q, no-totals %q, totals-only %q", t.name, both, nt, to))
 			}
 		}
+		// the single-element / per-food / single-food views are selections of the same records: the template,
+		// shorten and totals switches must not change what they show (compared up to white space)
+		fields := func(o string) string { return strings.Join(strings.Fields(o), " ") }
+		viewEl := w.names[c.Element]
+		viewFood := ""
+		if len(c.Log) > 0 && len(c.Log[0].Es) > 0 {
+			viewFood = w.names[c.Log[0].Es[0][0]]
+		}
+		for _, view := range [][]string{{"-s", viewEl}, {"-s", viewEl, "-g"}, {"-f", viewFood}} {
+			if view[1] == "" || strings.ContainsAny(view[1], "()[]{}*+?|\\.^$") { // -f takes a regular expression
+				continue
+			}
+			basic, ok := x.run(append([]string{"--no-color", "reg"}, view...)...)
+			if !ok {
+				continue
+			}
+			for _, fl := range [][]string{{"--use-old-reg-reporter"}, {"--internal-template-name", "left-aligned"}, {"--shorten"}, {"--no-totals"}, {"--totals-only"}} {
+				o, ok := x.run(append(append([]string{"--no-color", "reg"}, view...), fl...)...)
+				if ok && fields(o) != fields(basic) {
+					x.bad("presentation-changes-records", site, fmt.Sprintf("reg %v %v shows %q; without the presentation switch it shows %q", view, fl, o, basic))
+					break
+				}
+			}
+		}
 		// --desc changes the order only
 		for _, q := range [][]string{{"report", "quantity"}} {
 			a, ok1 := x.run(q...)
